@@ -100,10 +100,16 @@ func TestC19(t *testing.T) {
 	if os.Getenv("VERIF_TIER") == "thorough" {
 		maxLen = 8 << 20
 	}
-	col := ev.Get("C19", "output", "1-6 jobs x 1-4 tasks running at the same time through the real TaskRunner; each task has 1-4 commands, each 'vhelper emit <spec>' (a generated sequence of stdout/stderr chunks with pauses; sizes 0 B to 300 KB, 8 MB in the thorough tier; partial last lines; arbitrary bytes or valid UTF-8) an interpreter builtin (echo/printf), a child that re-opens /dev/stdout or /dev/stderr by path (> and >>), emit commands whose streams the script merges (2>&1, 1>&2: the log must keep the order of the writes), and a command that leaves a background child behind which writes 0.3 s after the command's own process has ended (the runner's kill timeout is the default or 100 ms); every chunk starts with a (job,task,stream,#) marker; task names over letters/digits/_-. space and non-ASCII, in a quarter of the cases two names of one job that differ in a single character (space/underscore, case, accents, CJK); oracle: FileOutputStore.Reader(job,task,stream) equals the concatenation, in order, of that task's chunks for that stream over all its commands, GET /job/logs (with the job id in its canonical or another accepted spelling: upper case, braces, urn:uuid:, without hyphens) returns the same as strings (UTF-8 tasks), a task the job does not have and an unknown job give 404; in half of the cases a second runner is started from a store that knows the jobs but not their tasks' start (a crash between log write and state save) and must return the same logs; in half of the cases the definitions are edited after the jobs ran (in every pipeline one task is gone and a new one is there) and the logs are read again: unchanged for the tasks the job ran, 404 for the new task; in a third of the cases one more job is canceled while its task, which has written to both streams, is still running (its log must hold what it had written); a sixth of the tasks end with a failing command (their output up to it must still be complete) and half of the cases run a second round of the same jobs on the same store; non-trivial = >=64 KiB on a stream or >=2 commands or both streams used, with >=2 tasks writing at once; distinct by (shape of the case)")
+	col := ev.Get("C19", "output", "1-6 jobs x 1-4 tasks (in a twelfth of the cases a crowd of 12 x 4 tasks that all write, pause and write again, 96 log streams open at once) running at the same time through the real TaskRunner; each task has 1-4 commands, each 'vhelper emit <spec>' (a generated sequence of stdout/stderr chunks with pauses; sizes 0 B to 300 KB, 8 MB in the thorough tier; partial last lines; arbitrary bytes or valid UTF-8) an interpreter builtin (echo/printf), a child that re-opens /dev/stdout or /dev/stderr by path (> and >>), emit commands whose streams the script merges (2>&1, 1>&2: the log must keep the order of the writes), and a command that leaves a background child behind which writes 0.3 s after the command's own process has ended (the runner's kill timeout is the default or 100 ms); every chunk starts with a (job,task,stream,#) marker; task names over letters/digits/_-. space and non-ASCII, in a quarter of the cases two names of one job that differ in a single character (space/underscore, case, accents, CJK); oracle: FileOutputStore.Reader(job,task,stream) equals the concatenation, in order, of that task's chunks for that stream over all its commands, GET /job/logs (with the job id in its canonical or another accepted spelling: upper case, braces, urn:uuid:, without hyphens) returns the same as strings (UTF-8 tasks), a task the job does not have and an unknown job give 404; in half of the cases a second runner is started from a store that knows the jobs but not their tasks' start (a crash between log write and state save) and must return the same logs; in half of the cases the definitions are edited after the jobs ran (in every pipeline one task is gone and a new one is there) and the logs are read again: unchanged for the tasks the job ran, 404 for the new task; in a third of the cases one more job is canceled while its task, which has written to both streams, is still running (its log must hold what it had written); a sixth of the tasks end with a failing command (their output up to it must still be complete) and half of the cases run a second round of the same jobs on the same store; non-trivial = >=64 KiB on a stream or >=2 commands or both streams used, with >=2 tasks writing at once; distinct by (shape of the case)")
 	vh := helper(t)
 	rapid.Check(t, func(rt *rapid.T) {
 		nJobs := rapid.IntRange(1, 6).Draw(rt, "nJobs")
+		// a crowd, in a twelfth of the cases: 12 jobs x 4 tasks, all writing at the same time - each writes, pauses
+		// while the others open their logs, and writes again (96 log streams open at once)
+		crowd := rapid.IntRange(0, 11).Draw(rt, "crowd") == 0
+		if crowd {
+			nJobs = 12
+		}
 		specDir := workDir(rt, "specs")
 		defer os.RemoveAll(specDir)
 		defs := &definition.PipelinesDef{Pipelines: definition.PipelinesMap{}}
@@ -113,6 +119,9 @@ func TestC19(t *testing.T) {
 		writers := 0
 		for j := 0; j < nJobs; j++ {
 			nT := rapid.IntRange(1, 4).Draw(rt, "nTasks")
+			if crowd {
+				nT = 4
+			}
 			names := rapid.SliceOfNDistinct(taskNameGen, nT, nT, rapid.ID[string]).Draw(rt, "taskNames")
 			if nT >= 2 && rapid.IntRange(0, 3).Draw(rt, "lookalikeNames") == 0 {
 				// two tasks whose names differ in one character only (of the kind a file-name
@@ -131,6 +140,31 @@ func TestC19(t *testing.T) {
 				te := taskExpect{name: tn, utf8: rapid.IntRange(0, 3).Draw(rt, "utf8Task") > 0}
 				nCmd := rapid.IntRange(1, 4).Draw(rt, "nCommands")
 				var script []string
+				if crowd {
+					nCmd = 0
+					var spec []specChunk
+					for k, pause := range []int{400000, 0} {
+						for _, st := range []int{1, 2} {
+							data := []byte(fmt.Sprintf("<j%d/t%d/s%d/crowd#%d>%s", j, ti, st, k, rapid.StringMatching(`[a-z]{0,20}`).Draw(rt, "crowdText")))
+							p := 0
+							if st == 2 {
+								p = pause
+							}
+							spec = append(spec, specChunk{st, base64.StdEncoding.EncodeToString(data), p})
+							if st == 1 {
+								te.stdout = append(te.stdout, data...)
+							} else {
+								te.stderr = append(te.stderr, data...)
+							}
+						}
+					}
+					b, _ := json.Marshal(spec)
+					p := filepath.Join(specDir, fmt.Sprintf("j%dt%dcrowd.json", j, ti))
+					if err := os.WriteFile(p, b, 0o666); err != nil {
+						rt.Fatalf("spec: %v", err)
+					}
+					script = append(script, vh+" emit "+p)
+				}
 				for c := 0; c < nCmd; c++ {
 					switch rapid.IntRange(0, 8).Draw(rt, "cmdKind") {
 					case 8:
@@ -386,7 +420,7 @@ func TestC19(t *testing.T) {
 		}
 		nontrivial := (big || multiCmd || bothStreams) && writers >= 2
 		col.Add(fmt.Sprintf("%d/%d/%v/%v/%v/%v", nJobs, writers, big, multiCmd, bothStreams, expectsShape(expects)), nontrivial,
-			map[string]int{"failing-task": btoi(anyFails), "second-round-after-failure": btoi(anyFails && rounds == 2), "two-rounds": btoi(rounds == 2), ">=64KiB-on-a-stream": btoi(big), ">=2-commands": btoi(multiCmd), "both-streams": btoi(bothStreams), "writers>=2": btoi(writers >= 2), "writers>=6": btoi(writers >= 6), "merged-streams": btoi(merged), "late-writer-after-command-ended": btoi(lateWriter), "job-canceled-while-its-task-had-written": btoi(canceledWriter), "definitions-edited-after-the-jobs": btoi(reloaded), "short-kill-timeout": btoi(kt > 0), "lookalike-task-names": btoi(lookalike), "logs-after-restart": btoi(restarted)}, writers,
+			map[string]int{"failing-task": btoi(anyFails), "second-round-after-failure": btoi(anyFails && rounds == 2), "two-rounds": btoi(rounds == 2), ">=64KiB-on-a-stream": btoi(big), ">=2-commands": btoi(multiCmd), "both-streams": btoi(bothStreams), "writers>=2": btoi(writers >= 2), "writers>=6": btoi(writers >= 6), "merged-streams": btoi(merged), "late-writer-after-command-ended": btoi(lateWriter), "job-canceled-while-its-task-had-written": btoi(canceledWriter), "definitions-edited-after-the-jobs": btoi(reloaded), "short-kill-timeout": btoi(kt > 0), "lookalike-task-names": btoi(lookalike), "crowd-of-48-tasks": btoi(crowd), "logs-after-restart": btoi(restarted)}, writers,
 			map[string]interface{}{"jobs": nJobs, "tasks_writing": writers, "shape": expectsShape(expects)})
 	})
 }
